@@ -1,4 +1,5 @@
 import gfapy
+from .dynamic_fields import DynamicField
 
 class FieldData:
 
@@ -66,7 +67,9 @@ class FieldData:
     elif self.virtual:
       raise gfapy.RuntimeError("Virtual lines do not have tags")
     elif (self.vlevel == 0) or self._is_valid_custom_tagname(fieldname):
-      if hasattr(self.__class__, fieldname) or fieldname in self.__dict__:
+      if hasattr(self.__class__, fieldname) or \
+          (fieldname in self.__dict__ and not \
+           isinstance(self.__dict__[fieldname], DynamicField)):
         raise gfapy.FormatError(
           "'{}' cannot be used as tag name: ".format(fieldname)+
           "it is the name of a method or attribute of the line")
